@@ -137,9 +137,13 @@ Definition lk_delegate (s : lk_state) (x : Z) : lk_state * N :=
   (mklk (mklka (lk_orig a) (lk_lockup a) (lk_vesting a) (lk_start a) (lk_end a) (lk_dv a) (lk_df a + x))
         (lk_bal s - x) (lk_deleg s + x) (lk_unb s) (lk_now s) (lk_bond s), LK_OK).
 
+(** MsgUndelegate: no bank movement.  Whether the staking module accepts the
+    amount (shares/tokens rounding) is not modelled: the harness issues this
+    step only for accepted undelegations, and the staking figures are re-read
+    afterwards ([LkSlash]). *)
 Definition lk_undelegate (s : lk_state) (x : Z) : lk_state * N :=
-  if (x <=? 0) || (lk_deleg s <? x) then (s, LK_INVALID) else
-  (mklk (lk_a s) (lk_bal s) (lk_deleg s - x) (lk_unb s + x) (lk_now s) (lk_bond s), LK_OK).
+  if x <=? 0 then (s, LK_INVALID) else
+  (mklk (lk_a s) (lk_bal s) (Z.max 0 (lk_deleg s - x)) (lk_unb s + x) (lk_now s) (lk_bond s), LK_OK).
 
 (** UndelegateCoins: TrackUndelegation (X = min(DF, y), Y = min(DV, y - X)), then the credit *)
 Definition lk_complete (s : lk_state) (y : Z) : lk_state * N :=
